@@ -179,6 +179,59 @@ func oracleC03CLI(p *Pair, env *Env, a [][]byte) *Failure {
 	return nil
 }
 
+// every command, repeated as fresh processes on the same tree: same stdout, same exit status, same files afterwards
+// args: repetitions (length-coded), tree
+func oracleC03Tree(p *Pair, env *Env, a [][]byte) *Failure {
+	n := len(a[0])
+	t := decodeTree(a[1])
+	var ras []string
+	for path := range t {
+		if strings.HasPrefix(path, "regex-assembly/") && strings.HasSuffix(path, ".ra") && !strings.Contains(path[len("regex-assembly/"):], "/") {
+			ras = append(ras, strings.TrimSuffix(path[len("regex-assembly/"):], ".ra"))
+		}
+	}
+	sort.Strings(ras)
+	if len(ras) == 0 {
+		return nil
+	}
+	readers := [][]string{{"regex", "generate", ras[0]}, {"regex", "compare", ras[0]}, {"regex", "compare", "-a"}, {"-o", "github", "regex", "compare", "-a"},
+		{"regex", "format", "-c", "-a"}, {"-o", "github", "regex", "format", "-a", "-c"}, {"-o", "github", "util", "renumber-tests", "-c", "-a"}}
+	writers := [][]string{{"regex", "update", "-a"}, {"regex", "format", "-a"}, {"util", "renumber-tests", "-a"}, {"chore", "update-copyright", "-v", "4.9.0", "-y", "2033"}}
+	sb := mkSandbox(env)
+	defer os.RemoveAll(sb)
+	_ = t.write(sb)
+	for _, argv := range readers {
+		var first cliResult
+		for i := 0; i < n; i++ {
+			c := runCLI(env, sb, nil, append([]string{"-l", "disabled"}, argv...)...)
+			if i == 0 {
+				first = c
+			} else if c.exit != first.exit || !bytes.Equal(c.stdout, first.stdout) {
+				return &Failure{What: "a command is not deterministic across fresh processes: " + strings.Join(argv, " "),
+					Detail: fmt.Sprintf("exit %d %q\nexit %d %q", first.exit, first.stdout, c.exit, c.stdout)}
+			}
+		}
+	}
+	for _, argv := range writers {
+		var first cliResult
+		var firstSnap map[string]string
+		for i := 0; i < n; i++ {
+			w := mkSandbox(env)
+			_ = t.write(w)
+			c := runCLI(env, w, nil, append([]string{"-l", "disabled"}, argv...)...)
+			snap := snapshot(w)
+			os.RemoveAll(w)
+			if i == 0 {
+				first, firstSnap = c, snap
+			} else if c.exit != first.exit || !bytes.Equal(c.stdout, first.stdout) || len(diffSnap(firstSnap, snap)) > 0 {
+				return &Failure{What: "a rewriting command is not deterministic across fresh processes: " + strings.Join(argv, " "),
+					Detail: fmt.Sprintf("exit %d vs %d; stdout %q vs %q; files %v", first.exit, c.exit, first.stdout, c.stdout, diffSnap(firstSnap, snap))}
+			}
+		}
+	}
+	return nil
+}
+
 func genC03(r *rand.Rand, tier string, env *Env) []Case {
 	n, nCli, reps := 150, 12, 10
 	if tier == "thorough" {
@@ -212,6 +265,15 @@ func genC03(r *rand.Rand, tier string, env *Env) []Case {
 		}
 		cases = append(cases, c)
 	}
+	// whole trees through every command, several stale rules
+	nTrees, treeReps := 3, 4
+	if tier == "thorough" {
+		nTrees, treeReps = 30, 8
+	}
+	for i := 0; i < nTrees; i++ {
+		ct := genCRSTree(r, 3+r.Intn(4))
+		cases = append(cases, Case{Kind: "tree:all-commands-repeated", Oracles: []Op{{"c03.tree", [][]byte{bytes.Repeat([]byte{'x'}, treeReps), encodeTree(ct.t)}}}})
+	}
 	// the static obligation: every range over a map in the modelled packages is one the model quantifies over
 	cases = append(cases, Case{Kind: "map-range-sites", Oracles: []Op{{"c03.sites", nil}}})
 	return cases
@@ -237,6 +299,7 @@ func init() {
 	oracles["c03.repeat"] = oracleC03Repeat
 	oracles["c03.cli"] = oracleC03CLI
 	oracles["c03.sites"] = oracleC03Sites
+	oracles["c03.tree"] = oracleC03Tree
 	properties["C03"] = &Property{
 		ID: "C03", LeanMods: []string{"CrsProps.C03"},
 		Corr: "K2, K5 (the model is a function: agreement of the code with it on every repetition is determinism), static list of map `range` sites (go/ast)",
